@@ -190,7 +190,13 @@ def decompress(filename, tmpdir=None, target=None):
     compfile = get_compressor(fmt)
     try:
         if fmt == 'zip':
-            shutil.copyfileobj(compfile(filename, 'r').open(filebase, 'r'),
+            archive = compfile(filename, 'r')
+            # The archive may have been renamed after its creation (e.g. by
+            # FileSet.move). Then its only member still has the old name:
+            members = archive.namelist()
+            if filebase not in members and len(members) == 1:
+                filebase = members[0]
+            shutil.copyfileobj(archive.open(filebase, 'r'),
                                tmpfile,
                                chunksize)
         else:
